@@ -189,7 +189,7 @@ func (P) Monitor(c *hx.CaseRun) []hx.Failure {
 }
 
 func (P) Generate(g *hx.Gen) {
-	n := g.Pick(25, 600)
+	n := g.Pick(80, 600)
 	for k := 0; k < n; k++ {
 		ops := []string{hx.CaseOp(), fmt.Sprintf("procs n=%d", []int{1, 2, 4, 16}[g.Rng.Intn(4)]), fmt.Sprintf("chain trie=1 accts=4 wallets=2 seed=%d code=1", 1+g.Rng.Intn(1000))}
 		nonce := []int{0, 0, 0, 0}
